@@ -54,7 +54,7 @@ class _Raw(io.FileIO):
 
 def make_open(rec):
     def crash_open(file, mode='r', *a, **k):
-        if ('w' in mode or 'a' in mode or '+' in mode) and isinstance(file, str):
+        if ('w' in mode or 'a' in mode or '+' in mode or 'x' in mode) and isinstance(file, str):
             raw = _Raw(rec, file, mode.replace('b', '').replace('t', ''), k.get('opener'))
             buf = io.BufferedWriter(raw, io.DEFAULT_BUFFER_SIZE)
             if 'b' in mode:
